@@ -337,7 +337,7 @@ pub mod sync {
         }
 
         pub fn channel<T>(buffer: usize) -> (Sender<T>, Receiver<T>) {
-            let (tx, rx) = real::channel(buffer);
+            let (tx, rx) = real::channel(world::chan_cap(buffer));
             (Sender(tx), Receiver(rx))
         }
     }
